@@ -36,6 +36,22 @@ func ackReplay(c *vh.Ctx) {
 			c.Fail("panic", "ack-replay scenario panicked: "+p, map[string]any{"kind": "ack-replay"})
 			return
 		}
+		for _, path := range []string{"ws", "socks5"} {
+			var io cryptomesh.ICMPObs
+			if p := vh.Recover(func() { io = m.ReplayICMP(path) }); p != "" {
+				c.Fail("panic", "ICMP ack-replay scenario panicked: "+p, map[string]any{"kind": "ack-replay"})
+				return
+			}
+			if io.OpenErr != "" {
+				c.Note("ack-replay icmp-%s: session did not open (%s); not evaluated", path, io.OpenErr)
+				continue
+			}
+			c.Case(fmt.Sprintf("ack-replay/icmp-%s/%d", path, round), true, map[string]any{"kind": "ack-replay", "tunnel": "icmp-" + path, "round": round})
+			c.Count("ack-replay:icmp-" + path)
+			if io.DerivedByReplay > 0 {
+				c.Count("ack-replay-rederived:icmp-" + path)
+			}
+		}
 		for _, o := range obs {
 			rp := map[string]any{"kind": "ack-replay", "tunnel": o.Kind, "round": round}
 			if o.OpenErr != "" {
